@@ -10,5 +10,6 @@ CONSTANTS
   Alpha = "A"
   MaxLen = 8
   TailLen = 0
+  DeepReps = {}
 INVARIANT AcceptsExactlyTheGrammar
 INVARIANT Emit
